@@ -1,6 +1,7 @@
 use crate::ctx::Ctx;
 
 pub mod c01;
+pub mod c01_e2e;
 pub mod c02;
 pub mod c04;
 pub mod c19;
